@@ -58,6 +58,8 @@ type mutCtx struct {
 	pre   *refspec.State // advanced to the valid block's slot
 	valid *refspec.SignedBlock
 	b     *fw.B
+	// oldSync: the sync committee of an earlier period of this chain that differs from the current one (nil if there is none yet)
+	oldSync *refspec.SyncCommittee
 }
 
 // a mutator edits the block in place; outer mutators are judged with signature and state-root validation on
@@ -652,6 +654,31 @@ func c03Mutators() []mutator {
 			}
 			return true
 		}},
+		mutator{"sync/signed-by-the-committee-of-an-earlier-period", false, func(m *mutCtx, b *refspec.SignedBlock) bool {
+			// the right message, the right bits, but the keys of the committee that served an earlier period (what a stale cache would hold)
+			if m.pre.Fork < refspec.Altair || m.oldSync == nil {
+				return false
+			}
+			var sks []*blsu.SecretKey
+			differs := false
+			for i, pk := range m.oldSync.Pubkeys {
+				if b.Message.Body.SyncAggregate.SyncCommitteeBits[i] {
+					sks = append(sks, m.c.Keys.SK[m.c.KeyOf[pk]])
+					differs = differs || pk != m.pre.CurrentSyncCommittee.Pubkeys[i]
+				}
+			}
+			if len(sks) == 0 || !differs {
+				return false
+			}
+			prev := m.pre.Slot - 1
+			root, err := m.sp.BlockRootAtSlot(m.pre, prev)
+			if err != nil {
+				return false
+			}
+			sr := m.sp.SigningRoot(root, m.sp.Domain(m.pre, refspec.DOMAIN_SYNC_COMMITTEE, m.sp.EpochAtSlot(prev)))
+			b.Message.Body.SyncAggregate.SyncCommitteeSignature = sim.AggSign(sks, sr)
+			return true
+		}},
 		mutator{"sync/signature-over-other-root", false, func(m *mutCtx, b *refspec.SignedBlock) bool {
 			if m.pre.Fork < refspec.Altair {
 				return false
@@ -834,9 +861,31 @@ func runC03(b *fw.B) {
 		bases := 0
 		perFork := map[int]int{}
 		specials := 0
+		var committees []refspec.SyncCommittee // the distinct current sync committees this chain has had, in order
+		syncSpecials := 0
 		hooks := chainHooks{beforeBlock: func(c *sim.Chain, built *sim.Built) bool {
 			fork := built.Signed.Message.Fork
 			rich := len(built.Ops) >= 4
+			var oldSync *refspec.SyncCommittee
+			if built.Pre.Fork >= refspec.Altair {
+				cur := built.Pre.CurrentSyncCommittee
+				if len(committees) == 0 || !reflect.DeepEqual(committees[len(committees)-1].Pubkeys, cur.Pubkeys) {
+					committees = append(committees, cur)
+				}
+				if len(committees) >= 2 {
+					oldSync = &committees[len(committees)-2]
+				}
+			}
+			if oldSync != nil && syncSpecials < 2 {
+				// always taken: blocks of a period whose sync committee differs from the one before
+				syncSpecials++
+				b.Inc("bases_in_a_period_whose_sync_committee_differs_from_the_previous_one")
+				perFork[fork]++
+				bases++
+				b.Inc("bases")
+				c03Base(b, ctx, c, built, muts, sc, oldSync)
+				return false
+			}
 			// always taken: the block whose eth1 vote makes its own deposits due, and blocks with a surround-vote slashing
 			special := len(built.Signed.Message.Body.Deposits) > 0 && built.Pre.Eth1Data.DepositCount == built.Pre.Eth1DepositIndex
 			for _, as := range built.Signed.Message.Body.AttesterSlashings {
@@ -850,7 +899,7 @@ func runC03(b *fw.B) {
 			perFork[fork]++
 			bases++
 			b.Inc("bases")
-			c03Base(b, ctx, c, built, muts, sc)
+			c03Base(b, ctx, c, built, muts, sc, oldSync)
 			return false
 		}}
 		slashedBases := 0
@@ -878,7 +927,7 @@ func runC03(b *fw.B) {
 			}
 			slashedBases++
 			b.Inc("bases_by_a_slashed_proposer")
-			c03Base(b, ctx, c, built, []mutator{{"header/proposer-is-slashed", false, func(m *mutCtx, blk *refspec.SignedBlock) bool { return true }}}, sc)
+			c03Base(b, ctx, c, built, []mutator{{"header/proposer-is-slashed", false, func(m *mutCtx, blk *refspec.SignedBlock) bool { return true }}}, sc, nil)
 		}
 		runChain(b, sc, hooks, func(m *sim.Mismatch, trace []string) {
 			if m.Kind != "harness" && m.Kind != "genesis" {
@@ -891,10 +940,10 @@ func runC03(b *fw.B) {
 	}
 }
 
-func c03Base(b *fw.B, ctx context.Context, c *sim.Chain, built *sim.Built, muts []mutator, sc scenario) {
+func c03Base(b *fw.B, ctx context.Context, c *sim.Chain, built *sim.Built, muts []mutator, sc scenario, oldSync *refspec.SyncCommittee) {
 	sp := c.Sp
 	fork := built.Signed.Message.Fork
-	m := &mutCtx{c: c, sp: sp, pre: built.Pre, valid: built.Signed, b: b}
+	m := &mutCtx{c: c, sp: sp, pre: built.Pre, valid: built.Signed, b: b, oldSync: oldSync}
 	runZf := func(data []byte, validate bool, fork int) (decodeErr, err error, panicked any, z *beacon.StandardUpgradeableBeaconState) {
 		digest := common.ComputeForkDigest(common.Version(sp.ForkVersions[fork]), common.Root(c.Ref.GenesisValidatorsRoot))
 		cp, cerr := c.Z.BeaconState.CopyState()
